@@ -58,6 +58,12 @@ CHECKS = {
     "C18": dict(cat="model_checking", ref="§4 C18", tech="trace validation per build configuration: the reference configuration's trace is validated by the TLA+ trace specifications, every other configuration's trace must be the same behaviour (Trace_Same, checked by TLC)",
                 text="A fixed corpus (algorithm, seeding, mixed-call and scripted-timer JitterRng histories incl. deltas around 2^31/2^32) is executed by the harness built with opt-level 0/3 x overflow checks+debug assertions on/off x serde on/off; the dev/serde trace is validated against the specification and TLC requires every other trace to coincide with it event by event (values, Ok/Err, panics, readings consumed).",
                 note=TB + "; quick: 3 of the 8 configurations (dev+serde, release+serde, opt0-unchecked without serde); thorough: all 8; the corpus is fixed per seed"),
+    "C06": dict(cat="model_checking", ref="§4 C06", tech="algebraic certificate checked by TLC (ALG_Engine: Krylov rank, P(T)=0, x^(2^(n/2)) = JUMP(x), x^(2^(3n/4)) = LONG_JUMP(x) in GF(2)[x]/P) + trace validation of the real jump()/long_jump() against the reference jump loop",
+                text="For all 2^n states of each of the 5 jump-capable TLA+ engines the published jump polynomials are shown to equal x^(2^(n/2)) and x^(2^(3n/4)) modulo the characteristic polynomial, which TLC itself verifies from the engine's Krylov vectors; the 12 real types' jump functions are bound to the reference jump loop on unit-bit and random states (state image and following outputs), in several orders.",
+                note=TB + "; the characteristic polynomial comes from an untrusted helper and is re-checked in TLC; linearity of the implementation's jump is sampled"),
+    "C07": dict(cat="model_checking", ref="§4 C07", tech="algebraic certificate checked by TLC (ALG_Engine: Krylov rank n, P(T)e0=0, x^(2^n)=x, x^((2^n-1)/q)#1 for every prime q, exact re-multiplication of the factorisation) + complete transition matrices extracted from the code and validated against the specification; differing engines are decided on their own extracted matrix",
+                text="The single-cycle property is decided for all 2^n-1 non-zero states of the 7 engines by checking that x is primitive modulo the (verified) characteristic polynomial; each of the 15 linear types' transition matrices is recorded from the code on the full basis and must equal the specification's; if it does not, the certificate is run on the extracted matrix and an alarm needs a certificate (non-zero state stepping to zero replayed on the code, a Krylov space of too small dimension, or T^((2^n-1)/q) = I).",
+                note=TB + "; published factorisation of 2^n-1 (primality of the large factors is trusted); hints untrusted and re-checked; implementation linearity sampled"),
 }
 
 NOT_YET = {}
